@@ -290,6 +290,61 @@ def provoke_refusals(cls):
                 pass
 
 
+_DISTURBED = []
+
+
+def disturb_process():
+    """once per process, before a check's own cases: operations across the library that FAIL - unreadable and mis-nested
+    files, documents that do not convert, headers that are refused, profile / statement / account requests against a
+    server that answers with garbage, with an unconvertible profile, with an error status, or not at all.  Their outcomes
+    are ignored; what valid input gives afterwards must not depend on them (C17 states this for every property)."""
+    if _DISTURBED:
+        return
+    _DISTURBED.append(True)
+    import datetime
+    import io
+    import urllib.error
+    import warnings
+
+    from vf import fakehttp as F
+
+    private_xdg()
+    from ofxtools.Client import OFXClient, StmtRq
+    from ofxtools.Parser import OFXTree
+
+    good = F.profile_response("T0", datetime.datetime(2021, 1, 1, tzinfo=datetime.timezone.utc), {"bank": "http://disturb.example/ofx"})
+    bads = [b"", b"garbage", good[: len(good) // 2], good.replace(b"</SONRS>", b"</SONRQ>"), good.replace(b"<LANGUAGE>ENG", b"<LANGUAGE>KLINGON"), good.replace(b"<CODE>0", b"<CODE>zero"),
+            good.replace(b"VERSION=\"203\"", b"VERSION=\"999\""), good.replace(b"<DTSERVER>", b"<DTSERVER>x"), b"OFXHEADER:100\r\nDATA:OFXSGML\r\nVERSION:102\r\nSECURITY:NONE\r\nENCODING:USASCII\r\nCHARSET:KOI8\r\n"]
+    with warnings.catch_warnings():
+        warnings.simplefilter("ignore")
+        for b in bads:
+            try:
+                t = OFXTree()
+                t.parse(io.BytesIO(b))
+                t.convert()
+            except Exception:
+                pass
+        net = F.Net()
+        net.install()
+        try:
+            answers = [lambda ex, b=b: F.ok(b) for b in bads[1:8]] + [lambda ex: F.ok(F.profile_response("T0", None, {}, status=2000))]
+
+            def refuse(ex):
+                raise urllib.error.URLError("connection refused (scripted)")
+
+            for k, handler in enumerate(answers + [refuse]):
+                net.handler = handler
+                cl = OFXClient("http://disturb.example/ofx", org="DISTURB", fid=str(k), userid="u")
+                for call in (lambda: cl.request_profile(), lambda: cl.request_statements("pw", StmtRq(acctid="1", accttype="CHECKING")),
+                             lambda: cl.request_accounts("pw", datetime.datetime(2020, 1, 1, tzinfo=datetime.timezone.utc)), lambda: cl.request_profile(version=102, prettyprint=True, close_elements=False)):
+                    try:
+                        call().read()
+                    except Exception:
+                        pass
+        finally:
+            net.uninstall()
+
+
 def disturb_class(cls):
     touch_bases(cls)
     provoke_refusals(cls)
